@@ -26,7 +26,26 @@ pub struct WorldSpec {
 }
 
 /// Build parent shape + view descriptor for the given logical lengths.
+/// Parent buffers stay below this many elements: offsets, steps and extra axes multiply, and a
+/// huge lane inside a 6-D stepped parent would otherwise need gigabytes (and minutes).
+const MAX_PARENT_ELEMS: usize = 400_000;
+
 pub fn gen_view(rng: &mut Rng, lens: &[usize], plain: bool) -> (Vec<usize>, ViewDesc) {
+    let (shape, view) = gen_view_raw(rng, lens, plain);
+    if shape.iter().product::<usize>() <= MAX_PARENT_ELEMS {
+        return (shape, view);
+    }
+    // too big: no offsets / steps / permutation, and if that is not enough only the longest axis keeps its length
+    let (shape, view) = gen_view_raw(rng, lens, true);
+    if shape.iter().product::<usize>() <= MAX_PARENT_ELEMS {
+        return (shape, view);
+    }
+    let longest = (0..lens.len()).max_by_key(|&a| lens[a]).unwrap_or(0);
+    let small: Vec<usize> = lens.iter().enumerate().map(|(a, &l)| if a == longest { l.min(MAX_PARENT_ELEMS) } else { l.min(1) }).collect();
+    gen_view_raw(rng, &small, true)
+}
+
+fn gen_view_raw(rng: &mut Rng, lens: &[usize], plain: bool) -> (Vec<usize>, ViewDesc) {
     let nd = lens.len();
     let mut parent_shape = vec![];
     let mut slices = vec![];
